@@ -69,6 +69,19 @@ def main(argv=None) -> int:
         from . import selftest
 
         st = selftest.run_for(prop, tier, program)
+        if tier == "thorough":
+            # sensitivity / regression figures - recorded in the evidence, never part of the verdict
+            from . import automut, corpus
+
+            try:
+                st["seeded_and_benign_corpus"] = corpus.run_for(prop, program)
+                st["summary"] += " corpus=" + st["seeded_and_benign_corpus"].get("summary", "-").replace(",", "/")
+            except Exception as e:  # scratch-copy trouble (disk, git) must not turn into a verdict
+                st["seeded_and_benign_corpus"] = {"summary": f"not run: {type(e).__name__}: {e}"[:200]}
+            try:
+                st["operator_mutants"] = automut.run_for(prop, program, per_anchor=60)
+            except Exception as e:
+                st["operator_mutants"] = {"summary": f"not run: {type(e).__name__}: {e}"[:200]}
     except AnalysisError as e:
         print(f"ANALYSIS-ERROR property={prop} {e}")
         return 2
